@@ -79,6 +79,18 @@ CHECKS = {
          "every tested bad permutation, representation independence. Tied to the code by all 1024 subsets of S_0..S_3 x all m<=n<=3 x list/dict/predicate and "
          "random arbitrary sets inside S_<=5, with the three guarantees re-judged on the implementation's own output by an independent mesh containment.",
          "auto_bisc (set-iteration-order dependent) and arbitrary list order are evaluated only.", "5/C17"),
+ "C05": ("Lean 4 theorems: Basis/MeshBasis construction is order- and repetition-independent, defines the same class, is an antichain and a fixed point; text base independence; Av instance sharing + correspondence",
+         "Proved: Basis is the unique sorted antichain of containment-minimal inputs (perm/set invariance, same class via transitivity of containment, "
+         "fixed point), from_string is base independent, equal bases give the same Av object; for MeshBasis (after the sort-key/shortcut fixes) the same "
+         "statements for all well-formed mesh-type patterns, with same-class for ALL permutations via the C06 soundness/completeness theorems. "
+         "Exhaustive correspondence over all sequences of <=3 perms of length <=3 and meshes of length <=1 in every order.",
+         "", "5/C05"),
+ "C08": ("Lean 4 model of Python rich-comparison/hash dispatch driven by AST-generated dunder tables; theorems: == equivalence across subclasses, eq => equal stable hash, (len,lex) strict total order, mesh order total across subclasses, sorted correctness + correspondence",
+         "The isinstance guards and __hash__ body kinds of every dunder are regenerated from the source each run; proved about those tables: equality is "
+         "value equality and an equivalence across the hierarchy, != is its negation, equal objects have equal hashes under every pair of allocation "
+         "histories, set/dict lookup of an equal key succeeds, permutations are strictly totally ordered by (length, lex), every pair of mesh-type "
+         "patterns is comparable, sorted() is correct. Exhaustive pairs/triples of a ~100-object pool; hash stability under allocation churn, gc and fresh interpreters.",
+         "order laws of Basis/MeshBasis objects (inherited tuple comparison) are evaluated only.", "5/C08"),
 }
 
 PENDING = {}
